@@ -108,6 +108,20 @@ def run_harness(driver, scripts_path, outdir, race=False, timeout=1800, extra_en
                                cwd=outdir, env=env, capture_output=True, text=True, timeout=timeout)
         except subprocess.TimeoutExpired:
             raise MachineryError(f"harness driver {driver} timed out after {timeout}s")
+        if race and "WARNING: DATA RACE" in (p.stdout + p.stderr) and "cilium/statedb" in (p.stdout + p.stderr):
+            # the race detector saw an unsynchronised access inside statedb: record it in the last trace
+            note = json.dumps({"op": "race", "report": (p.stdout + p.stderr)[(p.stdout + p.stderr).index("WARNING: DATA RACE"):][:1500]})
+            tl = read_lines(trace) if os.path.exists(trace) else []
+            bl = read_lines(bounds) if os.path.exists(bounds) else []
+            if bl:
+                last = json.loads(bl[-1])
+                tl.append(note)
+                last["e"] = len(tl)
+                bl[-1] = json.dumps(last)
+                open(trace, "w").write("\n".join(tl) + "\n")
+                open(bounds, "w").write("\n".join(bl) + "\n")
+                if p.returncode not in (0, 75):
+                    p = subprocess.CompletedProcess(p.args, 0, p.stdout, p.stderr)
         if p.returncode == 75 and os.path.exists(trace + ".resume"):
             env["VERIF_RESUME_FROM"] = open(trace + ".resume").read().strip()
             os.remove(trace + ".resume")
